@@ -408,6 +408,14 @@ public:
    */
   GluonSubstrate() = delete;
 
+#ifdef GALOIS_VERIF
+  //! verification hook: read-only view of the per-host master lists (local
+  //! ids), to compare against the peers' mirror lists
+  const std::vector<std::vector<size_t>>& verifMasterNodes() const {
+    return masterNodes;
+  }
+#endif
+
   /**
    * Constructor for GluonSubstrate. Initializes metadata fields.
    *
